@@ -13,6 +13,7 @@ PROPS = {
             dict(tla="Cylinder_MC.tla", cfg="Cylinder_MC_de.cfg", tier="quick", timeout=300),
             dict(tla="Cylinder_MC.tla", cfg="Cylinder_MC_crash.cfg", tier="quick", timeout=300),
             dict(tla="Cylinder_MC.tla", cfg="Cylinder_MC_live.cfg", tier="quick", timeout=300),
+            dict(tla="Cylinder_MC.tla", cfg="Cylinder_MC_sign2.cfg", tier="thorough", timeout=1500),
             dict(tla="Cylinder_MC.tla", cfg="Cylinder_MC_de2.cfg", tier="thorough", timeout=1500)],
         drive=dict(family="cylinder", nrand=dict(quick=200, thorough=3000), timeout=3600),
         trace=dict(tla="Cylinder_Trace.tla", cfg="Cylinder_Trace_X03.cfg"),
